@@ -41,7 +41,7 @@ func runC11(c *core.Ctx) {
 	c.Rule("R7", "ReplicationSet.Do: per-goroutine delay timers", 1)
 	c.Rule("R8", "DoUntilQuorum and DoMultiUntilQuorum… delegate to the analysed functions with arguments, configuration and results untouched", 4)
 	c.Rule("R10", "multi-set read: every worker reads its set, failures recorded once, successes appended in full, answer after Wait", 3)
-	c.Rule("R9", "result trackers: success / failure / inclusion predicates and thresholds", 8)
+	c.Rule("R9", "result trackers: success / failure / inclusion predicates and thresholds; what done() releases", 10)
 	pkg := c.Prog.Pkg("ring")
 	fn := an.FindFunc(pkg, "DoUntilQuorumWithoutSuccessfulContextCancellation")
 	if fn == nil {
@@ -472,6 +472,7 @@ func runC11(c *core.Ctx) {
 	c11Legacy(c)
 	c11Entry(c)
 	c11Trackers(c)
+	c11Done(c)
 	c11Multi(c)
 }
 
@@ -782,6 +783,45 @@ func c11Entry(c *core.Ctx) {
 			return true
 		})
 		c.Check(okM && writesCfg == 0, "R8", "func=DoMultiUntilQuorumWithoutSuccessfulContextCancellation:multi", fn.Pos(), fmt.Sprintf("with several sets the call is handed on as (ctx, sets, cfg, f, cleanup) unchanged (args %v) and neither the configuration nor the callbacks are reassigned (%d writes): the per-set reads run with the caller's error classification", argsM, writesCfg), 1)
+	}
+}
+
+// c11Done (R9): what a tracker does with one result. defaultResultTracker: a failure releases a held-back
+// request on every path (nothing else decides it); a success checks for completion. zoneAwareResultTracker:
+// the first failure of a zone — and only the first — releases another zone.
+func c11Done(c *core.Ctx) {
+	pkg := c.Prog.Pkg("ring")
+	if f := an.FindFunc(pkg, "defaultResultTracker.done"); f != nil {
+		c.Analysed(f.String())
+		g := f.Graph()
+		rel := f.CallsTo(false, "ring", "(*defaultResultTracker).startAdditionalRequestsDueTo")
+		if len(rel) != 1 {
+			c.Undec("R9", "func=defaultResultTracker.done", f.Pos(), fmt.Sprintf("expected one startAdditionalRequestsDueTo call, found %d", len(rel)))
+		} else {
+			t := an.Table{G: g, From: g.EntryLoc(), FreeUnknown: true, Atoms: []an.Atom{{Name: "ok", Values: []string{"T", "F"}}},
+				Binder: &an.Binder{Fn: f, Eq: map[string]string{"p1|nil": "ok"}}, Targets: []an.Loc{g.Locate(rel[0].Expr)}, Names: []string{"release a held-back request"},
+				Want: func(r an.Row, _ int) an.Tri { return an.FromBool(r["ok"] == "F") }}
+			res := t.Run()
+			c.Check(res.OK(), "R9", "func=defaultResultTracker.done", f.Pos(), "a failed call releases one held-back request ⇔ it failed — on every path, whatever else is counted (a read must not stall with quorum still reachable): "+res.Summary(), res.Rows)
+		}
+	} else {
+		c.Miss("R9", "func=defaultResultTracker.done", "not found")
+	}
+	if f := an.FindFunc(pkg, "zoneAwareResultTracker.done"); f != nil {
+		c.Analysed(f.String())
+		g := f.Graph()
+		rel := f.CallsTo(false, "ring", "(*zoneAwareResultTracker).startAdditionalRequestsDueTo")
+		if len(rel) != 1 {
+			c.Undec("R9", "func=zoneAwareResultTracker.done", f.Pos(), fmt.Sprintf("expected one startAdditionalRequestsDueTo call, found %d", len(rel)))
+		} else {
+			t := an.Table{G: g, From: g.EntryLoc(), FreeUnknown: true, Atoms: []an.Atom{{Name: "ok", Values: []string{"T", "F"}}, {Name: "first", Values: []string{"lt", "eq", "gt"}}},
+				Binder: &an.Binder{Fn: f, Eq: map[string]string{"p1|nil": "ok"}, Cmp: map[string]string{"recv.failuresByZone[p0.Zone]|1": "first"}}, Targets: []an.Loc{g.Locate(rel[0].Expr)}, Names: []string{"release another zone"},
+				Want: func(r an.Row, _ int) an.Tri { return an.FromBool(r["ok"] == "F" && r["first"] == "eq") }}
+			res := t.Run()
+			c.Check(res.OK(), "R9", "func=zoneAwareResultTracker.done", f.Pos(), "another zone is released ⇔ the call failed ∧ it is the zone's first failure: "+res.Summary(), res.Rows)
+		}
+	} else {
+		c.Miss("R9", "func=zoneAwareResultTracker.done", "not found")
 	}
 }
 
